@@ -995,7 +995,10 @@ class Mailbox:
         if isinstance(notifications, str):
             notifications = [notifications]
 
-        for c in self.clients.values():
+        # NOTE: push() suspends; clients select and unselect this mailbox
+        #       meanwhile, so go over a copy of the client table.
+        #
+        for c in list(self.clients.values()):
             # Skip over the client we are not going to send notifications to.
             #
             if c == dont_notify:
@@ -1276,7 +1279,7 @@ class Mailbox:
         notifications = []
         notifications.append(f"* {num_msgs} EXISTS\r\n")
         notifications.append(f"* {num_recent} RECENT\r\n")
-        for c in self.clients.values():
+        for c in list(self.clients.values()):
             if c.pending_notifications and not c.idling:
                 c.pending_notifications.extend(notifications)
             else:
